@@ -3,4 +3,4 @@ Require Extraction.
 Require Import ExtrOcamlBasic.
 Extraction Language OCaml.
 Extraction "../ocaml/c01/model.ml" world_new config_ok step canary canary_expected spec_obs recv_in_order
-  free_count saturated live_loans pub_live sub_live getp gets getc bump_tbrcap panics inv_check pub_inv_b stale_expired lost_delivery.
+  free_count saturated live_loans pub_live sub_live getp gets getc bump_tbrcap panics inv_check pub_inv_b stale_expired lost_delivery inv_topology_b.
